@@ -116,6 +116,13 @@ InQuick(o) ==
     \/ o.lang # "c" /\ ~o.suptpl /\ o.ext = o.stem /\ (o.ext = "ovr") = (o.tpl = o.lookup)
     \/ o.suptpl /\ o.ext = "def" /\ o.stem = "def" /\ o.lookup /\ o.ns = o.tpl
 
+(* Influence probing (metamorphic runs) in the quick tier / the thorough tier.                                      *)
+ProbeQuick(o) ==
+    /\ InQuick(o) /\ o.lookup /\ o.ns = o.tpl
+    /\ o.lang = "c" => (o.ext = "def" /\ o.stem = "def")
+    /\ o.lang # "c" => o.tpl = o.suptpl
+ProbeThorough(o) == o.ext = "def" /\ o.stem = "def"
+
 (* ---- abstract files.  Outputs are classes of files (all type files / all namespace files / all serialization     *)
 (* support files of the fixture), named by what determines their paths.  Inputs are classes as well.              *)
 OutFile(k, o) == [k |-> k, e |-> o.ext, s |-> IF k = "ns" THEN o.stem ELSE "-"]
@@ -280,5 +287,7 @@ Emit ==
                        lo |-> Kinds(res["lo"].printed),
                        li |-> {f.e : f \in res["li"].printed},
                        infl |-> Influencers(opts),
+                       probe_q |-> ProbeQuick(opts),
+                       probe_t |-> ProbeThorough(opts),
                        accept |-> Accept(ps)]))
 =============================================================================
